@@ -151,6 +151,11 @@ class Transport(object):
         pass
 
     def getHost(self):
+        # bound to the configured local address; with the wildcard address the kernel picks the address of the outgoing
+        # interface, which may differ from one connection to the next (multi-homed host): sim.egress_hosts, cycled
+        hosts = getattr(self.sim, 'egress_hosts', None)
+        if self.sim.local_host == '0.0.0.0' and hosts:
+            return Address(hosts[(self.connector.id - 1) % len(hosts)], 40000 + self.connector.id)
         return Address(self.sim.local_host, 40000 + self.connector.id)
 
     def getPeer(self):
